@@ -18,6 +18,16 @@ THEOREMS = {
     'C10_modes': 'modes: continue mode raises nothing (but the BibTeXError of Person()); strict mode ends exactly like continue mode when nothing was reported, else raises the first reported problem',
     'C10_prefix_stable': 'confined_before: entries, preamble and problems present after the first k commands are initial segments of those of the complete run (only ever appended)',
     'C10_confined_step': 'confined: every command, malformed or not, appends at most one entry and one preamble item to what was read before it and changes nothing else in these lists (a malformed entry leaves at most one partial entry)',
+    'C10_scan_local': 'confined_after/locality: every scanner and parse function of LowLevelParser (get_token, required, parse_value_part with nested strings, parse_value, parse_field, parse_entry_body, parse_string_body) is local: if its run on text a did not hit the end of the text (no PrematureEOF) and stopped before it (a character left unread, or a syntax error), then on a ++ c, for every c, it returns the same value / same located error / same state changes and leaves c unread',
+    'C10_round_local': 'confined_after/locality: one whole round of the command loop (skip to "@", parse_command with its handle_error, process_entry/process_preamble, handle_error of the loop) on text a that finds its "@" and neither reports nor raises PrematureEOF has, on a ++ c for EVERY c, the same outcome (same entry/preamble item appended, same problems with the same lines, same macro table) with c left unread',
+    'C10_round_local_neg': 'confined_after/locality: "the round stopped with a non-empty unread rest" alone is not enough: PrematureEOF inside a string is raised without consuming the scanned text (kernel-evaluated witness "@a{k, t = {x y" vs "@a{k, t = {x y}}"; pybtex does the same)',
+    'C10_resync': 'confined_after/resynchronisation: unread text without "@" in front of a continuation c is skipped - the next round behaves exactly as on c alone, the line counter advanced by the line breaks skipped; if c has no "@" either the loop stops',
+    'C10_round_independent': 'confined_after/independence: a round does not depend on the entries, preamble items and problems collected before, nor on the absolute line number (lines of new problems shift along), except for the repeated-key check of add_entry: from a state with other problems/preamble items in front and entries inserted the round has the same outcome unless it reports a repeated entry for a key (compared by lower) of an inserted entry',
+    'C10_confined_after': 'confined_after (positive, all states/texts): if the round on bad ALONE goes on, reports no PrematureEOF and leaves unread text without "@", then in the run on bad ++ post everything read from post - entries, preamble items, problems (lines shifted by the line breaks before post), raised error - is exactly what the run on post alone produces, started with the macro table / wanted-set / unnamed counter as bad left them; exceptions: (a) the at most one partial entry of bad, (b) hypothesis: no later repeated-entry report for that entry\'s key',
+    'C10_confined_after_partial': 'confined_after (positive): if moreover the round on bad left macro table, wanted-set and unnamed-entry counter unchanged, the run on post alone is the plain run from the same state: a self-contained malformed entry alters nothing read after it (apart from its own partial entry and later entries reusing its key)',
+    'C10_confined_after_head': 'confined_after (positive, whole texts): for a malformed command at the head of the text that is self-contained in the sense of C10_confined_after_partial, parse_string(bad ++ post) yields what the round on bad yielded followed by exactly what parse_string(post) yields (problem lines shifted by the line breaks of bad), in every mode / wanted-set / macro table',
+    'C10_confined_after_unnamed_neg': 'confined_after: the unnamed-entry counter IS handed on - "@misc{ }" makes a later keyless (itself malformed) entry unnamed-2 instead of unnamed-1 (kernel-evaluated witness, same in pybtex) - the hypothesis of C10_confined_after_partial cannot be dropped',
+    'C10_confined_after_wanted_neg': 'confined_after: with wanted_entries the partial entry left by a malformed command still pulls in its crossref target (kernel-evaluated witness, same in pybtex) - the wanted-set hypothesis of C10_confined_after_partial cannot be dropped',
     'C10_confined_lone_at_neg': 'confined_after also fails for a malformed command that is a lone "@": "@" is in NAME_CHARS, the next command is read as an entry of type "@misc" and nothing is reported (kernel-evaluated witness) - NEW finding, the restricted C10_confined_partial of DESIGN.md is false as stated',
     'C10_confined_neg': 'confined_after fails with an "@" inside the malformed entry: witness evaluated in the kernel (bogus entry shadows a later real one) - known finding C10-at-inside-malformed-entry',
 }
@@ -288,12 +298,16 @@ LEVEL_TEXT = ('Machine-checked proofs (Lean 4) about the function-by-function mo
               'split_tex_string keeps the brace skeleton); every syntax error carries a line of the text (C10_located, invariant: line counter + '
               'line breaks of the unread rest = 1 + line breaks of the text); strict reading = continue-mode reading cut at the first reported '
               'problem, same database when there is none (C10_modes, simulation of the two runs); what was read after k commands is only ever '
-              'extended (C10_prefix_stable), by at most one entry and one preamble item per command, malformed or not (C10_confined_step). Confinement AFTER a malformed entry is refuted on two kernel-evaluated witnesses: an "@" inside the '
-              'entry (C10_confined_neg, known finding) and a lone "@" that swallows the "@" of the next command (C10_confined_lone_at_neg, new); '
-              'a positive restricted form is NOT proved - it is covered by the differential oracle only.')
+              'extended (C10_prefix_stable), by at most one entry and one preamble item per command, malformed or not (C10_confined_step). Confinement AFTER a malformed entry: "balanced braces and quotes" alone is refuted on two kernel-evaluated witnesses: an "@" inside the '
+              'entry (C10_confined_neg, known finding) and a lone "@" that swallows the "@" of the next command (C10_confined_lone_at_neg). '
+              'The POSITIVE statement is proved for every loop-top state and all texts bad, post (Lemmas/BibLocal.lean, one commutation lemma per function of the model): the reader is local - no function looks beyond '
+              'the character that ends what it consumes (C10_scan_local, C10_round_local; PrematureEOF is the one case where it has seen the end of the text, C10_round_local_neg) -, it resynchronises at the next "@" (C10_resync), and a round '
+              'depends on earlier entries only through the repeated-key check (C10_round_independent); hence (C10_confined_after) if the round on bad alone reports no PrematureEOF and leaves no "@" unread, everything read from post in bad ++ post '
+              'is exactly what is read from post alone, given the macro table / wanted-set / unnamed counter bad left behind (unchanged: C10_confined_after_partial), except for a later entry that reuses the key of the partial entry of bad. '
+              'The unnamed counter and the wanted-set are genuinely handed on (C10_confined_after_unnamed_neg, C10_confined_after_wanted_neg).')
 LEVEL_NOTE = ('Trusted: Lean kernel; axioms propext/Classical.choice/Quot.sound at most; the hand-written model corresponds to pybtex only as far as '
               'the differential check explores (every string of length <= 4/5 over the token alphabet, single-token corruptions, random Unicode; capture '
-              'and strict mode). "Never an internal exception/hang" of CPython itself is sampled, not proved. Not proved: any positive confinement-after '
-              'theorem (C10_confined_partial as written in DESIGN.md is false: lone "@"); that the reported line EQUALS the line of the offending '
+              'and strict mode). "Never an internal exception/hang" of CPython itself is sampled, not proved. The positive confinement-after theorem is stated for a loop-top state S and a decomposition bad ++ post of its unread text with OPERATIONAL hypotheses on the round on bad alone (no PrematureEOF reported, no "@" left unread); '
+              'a purely syntactic characterisation of such bad (C10_confined_partial of DESIGN.md: balanced, no "@") is false (lone "@"). Not proved: that the reported line EQUALS the line of the offending '
               'position (only the bounds 1 <= l <= number of lines); prefix stability is stated for the command loop stopped after k rounds, not for '
               'a decomposition text = a ++ b of the input.')
